@@ -2,26 +2,49 @@
 Line-protocol driver for the C19 model (lazy lists).  Parsing glue only.
 
 prog := B b n | M f prog | E k f₁…f_k prog | SI k i₁…i_k prog | SS a b c prog   (a,b,c ∈ int | N)
-      | R n prog | A prog prog | AP k v₁…v_k prog | C prog
+      | R n prog (n any int) | A prog prog | AP k v₁…v_k prog | C prog
+      | I f k v₁…v_k                      (init_from_iterable; f ∈ nat | N)
+      | G r k e₁…e_k m file₁…file_m max   (glob importer list; r ∈ nat | N; file := id k e₁…e_k; max ∈ int | N)
+      | V b n r                           (import_video frame list; r ∈ nat | N: resolver of frame j is r + j)
 ops  := heap k hop₁ … hop_k → ok ncells | len v… | len v… (every list object after the whole history)
-        all prog        → ok n v₀ log₀ v₁ log₁ …   | err index|value
+        hist k ev₁ … ev_k   → the same, then ` # log`   (ev := hop | rd a i | it a)
+        all prog        → ok n v₀ log₀ v₁ log₁ …   | err index|value|type
         get i prog      → ok v log                 | err …
+        get0d coded|repaired i prog → `prog[np.array(i)]` under the coded / the repaired dispatch
         ref prog        → ok n v₀ v₁ …   (ordinary-list semantics) | err …
+        reflog prog     → like `all`, computed by the provenance reference
+        reads k i₁…i_k prog → ok r₁ … r_k # log    (r := value | E)
+        iter prog / prefix k prog → ok n v… # log
+        contains v prog → ok 0|1 # log;  index v prog → ok j|none # log;  count v prog → ok c # log
+        reversed prog   → ok r… # log
+        readx k b₁…b_k i prog → ok v log | errx type log | err …   (functions b are not callable)
 log  := `-` or comma separated  a:b:i  /  c:f:arg
 -/
 import MenpoModel.Core.Codec
 import MenpoModel.Core.LazyList
+import MenpoModel.Core.C19Reads
+import MenpoModel.Core.C19Dispatch
 
 namespace MenpoModel.Drive.C19
-open MenpoModel.Codec MenpoModel.LazyList
+open MenpoModel.Codec MenpoModel.LazyList MenpoModel.PyData
 
-def envD : Env := { baseVal := fun b i => 1000 * (b + 1) + i, fn := fun f v => (f + 2) * v + (f + 1) }
+def envD : Env :=
+  { baseVal := fun b i => 1000 * (b + 1) + i,
+    fn := fun f v => if f = 7 then v else if f ≥ 100 then v + 100000 * ((f : Int) - 99) else (f + 2) * v + (f + 1) }
 
 def pOInt : P (Option Int) := do
   let t ← tok
   if t == "N" then pure none else match t.toInt? with
     | some i => pure (some i)
     | none => failure
+
+def pONat : P (Option Nat) := do
+  let t ← tok
+  if t == "N" then pure none else match t.toNat? with
+    | some i => pure (some i)
+    | none => failure
+
+def pFile : P FileEnt := do let i ← pNat; let es ← pList pNat; pure ⟨i, es⟩
 
 partial def pProg : P Prog := do
   let t ← tok
@@ -31,10 +54,13 @@ partial def pProg : P Prog := do
   | "E" => do let fs ← pList pNat; let p ← pProg; pure (.mapEach fs p)
   | "SI" => do let l ← pList pInt; let p ← pProg; pure (.select (.ints l) p)
   | "SS" => do let a ← pOInt; let b ← pOInt; let c ← pOInt; let p ← pProg; pure (.select (.slice a b c) p)
-  | "R" => do let n ← pNat; let p ← pProg; pure (.rep n p)
+  | "R" => do let n ← pInt; let p ← pProg; pure (.rep (repCount n) p)
   | "A" => do let p ← pProg; let q ← pProg; pure (.add p q)
   | "AP" => do let vs ← pList pInt; let p ← pProg; pure (.addPlain p vs)
   | "C" => do let p ← pProg; pure (.copy p)
+  | "I" => do let f ← pONat; let vs ← pList pInt; pure (.iter f vs)
+  | "G" => do let r ← pONat; let kn ← pList pNat; let fs ← pList pFile; let m ← pOInt; pure (.glob r kn fs m)
+  | "V" => do let b ← pNat; let n ← pNat; let r ← pONat; pure (videoFrames b n r)
   | _ => failure
 
 def pHOp : P HOp := do
@@ -45,17 +71,36 @@ def pHOp : P HOp := do
   | "he" => do let fs ← pList pNat; let a ← pNat; pure (.mapEach fs a)
   | "hsi" => do let l ← pList pInt; let a ← pNat; pure (.select (.ints l) a)
   | "hss" => do let a ← pOInt; let b ← pOInt; let c ← pOInt; let x ← pNat; pure (.select (.slice a b c) x)
-  | "hr" => do let n ← pNat; let a ← pNat; pure (.rep n a)
+  | "hr" => do let n ← pInt; let a ← pNat; pure (.rep (repCount n) a)
   | "ha" => do let a ← pNat; let b ← pNat; pure (.add a b)
   | "hp" => do let vs ← pList pInt; let a ← pNat; pure (.addPlain a vs)
   | "hc" => do let a ← pNat; pure (.copy a)
+  | "hi" => do let f ← pONat; let vs ← pList pInt; pure (.iter f vs)
+  | "hg" => do let r ← pONat; let kn ← pList pNat; let fs ← pList pFile; let m ← pOInt; pure (.glob r kn fs m)
   | _ => failure
+
+def pHEv : P HEv := fun s => match s with
+  | "rd" :: rest => (do let a ← pNat; let i ← pInt; pure (HEv.read a i) : P HEv) rest
+  | "it" :: rest => (do let a ← pNat; pure (HEv.iterate a) : P HEv) rest
+  | _ => (do let o ← pHOp; pure (HEv.op o) : P HEv) s
 
 def fmtEv : Ev → String
   | .acc b i => s!"a:{b}:{i}"
   | .call f a => s!"c:{f}:{a}"
 def fmtLog (l : List Ev) : String := if l.isEmpty then "-" else ",".intercalate (l.map fmtEv)
-def fmtErr : Err → String | .index => "err index" | .value => "err value"
+def fmtErr : Err → String | .index => "err index" | .value => "err value" | .type => "err type"
+def fmtCells (h : Heap) : String :=
+  s!"ok {h.length}" ++ String.join (h.map fun ts =>
+    s!" | {ts.length}" ++ String.join (ts.map fun t => s!" {t.eval envD}"))
+def fmtRes : Except Err Int → String | .ok v => toString v | .error _ => "E"
+
+/-- run `k` on the thunks of a program, or print the construction error -/
+def withTs (rest : List String) (pre : P α) (k : α → List LThunk → String) : String :=
+  match runP (do let a ← pre; let p ← pProg; pure (a, p)) rest with
+  | none => "bad-op"
+  | some (a, p) => match p.lazy with
+    | .error e => fmtErr e
+    | .ok ts => k a ts
 
 def step (toks : List String) : String :=
   match toks with
@@ -65,22 +110,72 @@ def step (toks : List String) : String :=
       | .error e => fmtErr e
       | .ok ts => s!"ok {ts.length}" ++ String.join (ts.map fun t =>
           let (v, l) := t.evalLog envD; s!" {v} {fmtLog l}")
+  | "reflog" :: rest => match runP pProg rest with
+    | none => "bad-op"
+    | some p => match p.refLog envD with
+      | .error e => fmtErr e
+      | .ok xs => s!"ok {xs.length}" ++ String.join (xs.map fun (v, l) => s!" {v} {fmtLog l}")
   | "get" :: rest => match runP (do let i ← pInt; let p ← pProg; pure (i, p)) rest with
     | none => "bad-op"
     | some (i, p) => match p.getInt envD i with
       | .error e => fmtErr e
       | .ok (v, l) => s!"ok {v} {fmtLog l}"
+  | "get0d" :: which :: rest => match runP (do let i ← pInt; let p ← pProg; pure (i, p)) rest with
+    | none => "bad-op"
+    | some (i, p) =>
+      let out := if which == "repaired" then getitemRepaired zeroDFeat else getitemCoded zeroDFeat
+      match p.lazy with
+      | .error e => fmtErr e
+      | .ok _ => match out with
+        | .element => (match p.getInt envD i with
+          | .error e => fmtErr e
+          | .ok (v, l) => s!"ok {v} {fmtLog l}")
+        | .typeError => "err type"
+        | .valueError => "err value"
+        | .indexError => "err index"
+        | .newList => "newlist"
   | "ref" :: rest => match runP pProg rest with
     | none => "bad-op"
     | some p => match p.ref envD with
       | .error e => fmtErr e
       | .ok vs => s!"ok {vs.length}" ++ String.join (vs.map fun v => s!" {v}")
+  | "reads" :: rest => withTs rest (pList pInt) fun is ts =>
+      let r := readsAt envD ts is
+      "ok" ++ String.join (r.1.map fun x => " " ++ fmtRes x) ++ " # " ++ fmtLog r.2
+  | "iter" :: rest => withTs rest (pure ()) fun _ ts =>
+      let r := iterAll envD ts
+      s!"ok {r.1.length}" ++ String.join (r.1.map fun v => s!" {v}") ++ " # " ++ fmtLog r.2
+  | "prefix" :: rest => withTs rest pNat fun k ts =>
+      let r := iterFrom envD ts 0 k
+      s!"ok {r.1.length}" ++ String.join (r.1.map fun v => s!" {v}") ++ " # " ++ fmtLog r.2
+  | "contains" :: rest => withTs rest pInt fun v ts =>
+      let r := containsTs envD v ts
+      s!"ok {if r.1 then 1 else 0} # " ++ fmtLog r.2
+  | "index" :: rest => withTs rest pInt fun v ts =>
+      let r := indexTs envD v ts
+      (match r.1 with | some j => s!"ok {j}" | none => "ok none") ++ " # " ++ fmtLog r.2
+  | "count" :: rest => withTs rest pInt fun v ts =>
+      let r := countTs envD v ts
+      s!"ok {r.1} # " ++ fmtLog r.2
+  | "reversed" :: rest => withTs rest (pure ()) fun _ ts =>
+      let r := reversedTs envD ts
+      "ok" ++ String.join (r.1.map fun x => " " ++ fmtRes x) ++ " # " ++ fmtLog r.2
+  | "readx" :: rest => withTs rest (do let bs ← pList pNat; let i ← pInt; pure (bs, i)) fun (bs, i) ts =>
+      match normIndex ts.length i with
+      | none => "err index"
+      | some j => match ts[j]? with
+        | none => "err index"
+        | some t => match t.evalLogX envD (fun f => bs.contains f) with
+          | (.ok v, l) => s!"ok {v} {fmtLog l}"
+          | (.error _, l) => s!"errx type {fmtLog l}"
   | "heap" :: rest => match runP (pList pHOp) rest with
     | none => "bad-op"
-    | some ops =>
-      let h := hrun [] ops
-      s!"ok {h.length}" ++ String.join (h.map fun ts =>
-        s!" | {ts.length}" ++ String.join (ts.map fun t => s!" {t.eval envD}"))
+    | some ops => fmtCells (hrun [] ops)
+  | "hist" :: rest => match runP (pList pHEv) rest with
+    | none => "bad-op"
+    | some evs =>
+      let r := hplay envD [] evs
+      fmtCells r.1 ++ " # " ++ fmtLog r.2
   | _ => "bad-op"
 
 end MenpoModel.Drive.C19
